@@ -360,6 +360,14 @@ def probes(P):
     else:
         p = subprocess.run([exe], stdout=subprocess.PIPE) if rc == 0 and rc2 == 0 else None
         rec('stdinit', '%option', p is not None and p.returncode == 0, 'yyin is not stdin before the first call of yylex: ' + out[-200:])
+    # ---- c99: actions spelled %{ ... %} (known finding F67) --------------------------------------
+    rc, se, cf = P.gen(spec(['emit="c99"', 'noyywrap'], rules='ab\t%{ fv_n += (int) yyleng + (yytext[0] == 97); %}\n.|\\n\t;\n', prologue='static int fv_n;'))
+    rc2, out, obj = P.cc(cf, link=False) if rc == 0 else (1, se, None)
+    if rc == 0 and rc2 != 0 and "'yytext' undeclared" in out.replace('\u2018', "'").replace('\u2019', "'"):
+        KNOWN.append(('F67', 'c99 back end: yytext / yyleng in an action spelled %{ ... %} are not rewritten (only { ... } and one-line '
+                             'actions are): the scanner does not compile'))
+    else:
+        rec('pct-brace-action', 'c99', rc == 0 and rc2 == 0, 'c99 scanner with a %%{ %%} action: %s' % out[-300:])
     # ---- the same observables with the c99 back end ------------------------------------------
     C99 = ['emit="c99"', 'noyywrap']
     M99 = 'int main(void) { yyscan_t s; int r; yylex_init(&s); r = yylex(s); yylex_destroy(s); return r; }\n'
